@@ -15,6 +15,7 @@ normalisation, two or more recombination parents -- the weights are logarithms -
 rigorous rounding bound (a few units of 2^-52 of the sum of the absolute values of the terms) and the model's solution point
 is re-synchronised with the implementation's afterwards."""
 import py2v_es
+import py2v_dqd
 import json
 import os
 import random
@@ -29,8 +30,9 @@ from es_spies import make_spy_archive, make_spy_es, make_spy_generator, make_spy
 
 CONFIG = {
     "cone": ["Base/ListUtil.v", "Base/QVec.v", "Model/Store.v", "Model/ESControl.v", "Spec/ESControlSpec.v", "Proofs/ESControlProofs.v",
-             "Model/DQD.v", "Proofs/DQDProofs.v", "Generated/ESGen.v", "Refine/ESRefine.v", "Properties/C19.v"],
-    "extra_property_files": ["Refine/ESRefine.v"],
+             "Model/DQD.v", "Proofs/DQDProofs.v", "Generated/ESGen.v", "Refine/ESRefine.v", "Properties/C19.v",
+             "Model/DqdPhases.v", "Generated/DqdGen.v", "Refine/DqdRefine.v"],
+    "extra_property_files": ["Refine/ESRefine.v", "Refine/DqdRefine.v"],
     "trusted": ["harness/py2v_es.py: fail-closed translator of _check_restart, the num_parents expression and the restart test of tell() of "
                 "EvolutionStrategyEmitter and GradientArborescenceEmitter into Generated/ESGen.v on every run; Refine/ESRefine.v proves both "
                 "copies equal to Model/ESControl.v for all arguments",
@@ -912,6 +914,7 @@ def replay(rp, driver):
 
 def check(rep, tier, seed, driver):
     py2v_es.report(rep)
+    py2v_dqd.report(rep)
     rng = random.Random(seed)
     n_gae, n_goe = (1400, 900) if tier == "quick" else (8000, 5000)
     rep.rule = ("random configurations of GradientArborescenceEmitter (solution dim 1..5, 1..3 measures, batch 1..6, mu / filter, basic / "
